@@ -12,19 +12,21 @@ type access struct {
 	addr  interface{} // *value or *smap
 	write bool
 	locks map[*value]bool
+	rlocks map[*value]bool // read locks of RWMutexes: they exclude writers only
 	pos   token.Pos
 	fn    string
 }
 
 type lockState struct {
 	held    map[*value]bool
+	heldR   map[*value]int // RWMutex read locks held
 	tracked map[interface{}]bool
 	recs    map[string][]access
 	cur     string
 }
 
 func newLockState() *lockState {
-	return &lockState{held: map[*value]bool{}, tracked: map[interface{}]bool{}, recs: map[string][]access{}}
+	return &lockState{held: map[*value]bool{}, heldR: map[*value]int{}, tracked: map[interface{}]bool{}, recs: map[string][]access{}}
 }
 
 func (i *interpreter) recordAccess(addr interface{}, write bool, fr *frame, pos token.Pos) {
@@ -43,6 +45,7 @@ func (i *interpreter) recordAccess(addr interface{}, write bool, fr *frame, pos 
 	if i.sched != nil {
 		// a shared access outside any lock is a scheduling point
 		if len(ls.held) == 0 {
+			// (a read lock does not keep other readers out: still a scheduling point)
 			i.sched.yield()
 		}
 		return
@@ -54,11 +57,17 @@ func (i *interpreter) recordAccess(addr interface{}, write bool, fr *frame, pos 
 	for k := range ls.held {
 		lk[k] = true
 	}
+	rlk := map[*value]bool{}
+	for k, n := range ls.heldR {
+		if n > 0 {
+			rlk[k] = true
+		}
+	}
 	fn := ""
 	if fr != nil {
 		fn = fr.fn.String()
 	}
-	ls.recs[ls.cur] = append(ls.recs[ls.cur], access{addr: addr, write: write, locks: lk, pos: pos, fn: fn})
+	ls.recs[ls.cur] = append(ls.recs[ls.cur], access{addr: addr, write: write, locks: lk, rlocks: rlk, pos: pos, fn: fn})
 }
 
 // track walks the object graph from v and marks every cell as shared.
@@ -130,7 +139,12 @@ func (ls *lockState) conflicts(a, b string) []string {
 			}
 			common := false
 			for k := range x.locks {
-				if y.locks[k] {
+				if y.locks[k] || y.rlocks[k] {
+					common = true
+				}
+			}
+			for k := range x.rlocks {
+				if y.locks[k] { // two read locks do not exclude each other
 					common = true
 				}
 			}
